@@ -71,7 +71,7 @@ P = D.DesignProperty(
           "formula's projected models and, for small sets, the real IterateSATGen loop are exhausted and compared as multisets "
           "with the reference enumeration; non-trivial = at least 2 valid sequences (or an unsatisfiable design whose trial count is "
           "defined) and a derived factor, constraint or weight is present; distinct = distinct spec JSON"),
-    cfg_quick=CFG, n_quick=60, n_thorough=2000, case_limit=(15, 120),
+    cfg_quick=CFG, n_quick=60, n_thorough=700, case_limit=(15, 120),
     limits={"max_T": {"quick": 7, "thorough": 9}, "max_seqs": {"quick": 300, "thorough": 3000},
             "max_models": {"quick": 1500, "thorough": 12000}, "real_loop": {"quick": 30, "thorough": 120}},
     assumptions=["vp/ref.py implements the documented semantics (self-test against the maintainers' expected counts)",
